@@ -29,6 +29,7 @@ RULE += (' Also: cancelled consumers that abandon their child without closing it
 RULE += (' Also: a tee of a tee child, the inner tee with a lock of its own.')
 RULE += (' Also: no pinned item at all is tolerated once every live child has yielded it.')
 RULE += (' Also: with fixed per-consumer requests the source is never advanced beyond the largest request.')
+RULE += (' Also: a future-style source whose plain __anext__ starts the fetch when called (scenarios without cancellation).')
 ASSUMPTIONS = ["without a lock only non-suspending sources are claimed (as the property states)",
                "class-based cancellation-safe source: an item is consumed only after the last suspension of __anext__",
                "consumers close their child when they stop (owner closes what it advanced)"]
